@@ -1720,7 +1720,8 @@ func (h *handler) handleListOffsets(ctx context.Context, header *protocol.Reques
 			offset, err := func() (int64, error) {
 				switch part.Timestamp {
 				case -2:
-					plog, err := h.getPartitionLog(ctx, topic.Topic, part.Partition)
+					mayCreate := h.autoCreateTopics && h.allowTopic(principalFromContext(ctx, header), topic.Topic, acl.ActionProduce)
+					plog, err := h.partitionLog(ctx, topic.Topic, part.Partition, mayCreate)
 					if err != nil {
 						return 0, err
 					}
@@ -1831,7 +1832,17 @@ func (h *handler) handleFetch(ctx context.Context, header *protocol.RequestHeade
 				partitionResponses = append(partitionResponses, p)
 				continue
 			}
-			plog, err := h.getPartitionLog(ctx, topicName, part.Partition)
+			// Fetch permission lets a principal read a topic, not create it: a missing
+			// topic is auto-created from this path only if the principal may produce to it.
+			mayCreate := h.autoCreateTopics && h.allowTopic(principal, topicName, acl.ActionProduce)
+			plog, err := h.partitionLog(ctx, topicName, part.Partition, mayCreate)
+			if err != nil && errors.Is(err, metadata.ErrUnknownTopic) {
+				p := kmsg.NewFetchResponseTopicPartition()
+				p.Partition = part.Partition
+				p.ErrorCode = protocol.UNKNOWN_TOPIC_OR_PARTITION
+				partitionResponses = append(partitionResponses, p)
+				continue
+			}
 			if err != nil {
 				h.logger.Error("fetch partition log failed", "topic", topicName, "partition", part.Partition, "error", err, "etcd_available", h.etcdAvailable(), "s3_state", h.s3Health.State())
 				errorCode := int16(protocol.UNKNOWN_SERVER_ERROR)
@@ -1992,6 +2003,13 @@ func (h *handler) ensureTopic(ctx context.Context, topic string, partition int32
 }
 
 func (h *handler) getPartitionLog(ctx context.Context, topic string, partition int32) (*storage.PartitionLog, error) {
+	return h.partitionLog(ctx, topic, partition, h.autoCreateTopics)
+}
+
+// partitionLog returns the partition's log, loading it on first use. A missing topic is
+// auto-created only when autoCreate is set: creating a topic is a write, so read paths
+// (Fetch, ListOffsets) pass autoCreate only for principals that may produce to the topic.
+func (h *handler) partitionLog(ctx context.Context, topic string, partition int32, autoCreate bool) (*storage.PartitionLog, error) {
 	h.logMu.RLock()
 	if partitions, ok := h.logs[topic]; ok {
 		if plog, ok := partitions[partition]; ok {
@@ -2051,7 +2069,7 @@ func (h *handler) getPartitionLog(ctx context.Context, topic string, partition i
 			// Auto-create at most once: if the topic already exists but does not
 			// have this partition, ensureTopic succeeds without changing anything
 			// and retrying again would spin forever.
-			if errors.Is(err, metadata.ErrUnknownTopic) && h.autoCreateTopics && !ensured {
+			if errors.Is(err, metadata.ErrUnknownTopic) && autoCreate && !ensured {
 				if err := h.ensureTopic(ctx, topic, partition); err != nil {
 					return nil, err
 				}
